@@ -4,7 +4,8 @@ import Prom.Lemmas.HistRefine
 The machine-side facts that make `Handoff.handoff_hb` applicable to the traces the histogram replay
 machine `Prom.HM` accepts:
   * an accepted event on a shard's count cell is the observer's publish (`fetch_add`, at least
-    Release), the collector's spin (compare-exchange, at least Acquire) or the collector's `addCount`
+    Release), the collector's spin (compare-exchange, at least Acquire; or the plain load that a
+    test-and-test-and-set wait loop does before an attempt) or the collector's `addCount`
     (`fetch_add`) — where each `fetch_add` may be written as a load + compare-exchange loop whose
     successful exchange carries the same ordering (`FaEv`) — never a store or a swap, so every
     modification of a count cell is an RMW (a successful compare-exchange IS one);
@@ -57,16 +58,55 @@ theorem FaEv.kind {e : Ev} {ord : String} (h : FaEv e ord) :
   · exact ⟨.inr (.inr hk), by simp [ofEv, hk], fun hw => by simp [ofEv, hk] at hw⟩
   · exact ⟨.inr (.inl hk), by simp [ofEv, hk], fun hw => by simp [ofEv, hk, hok] at hw⟩
 
+/-- the step of a collector's list that works on a count cell is the `addCount`, on the hot shard's count -/
+theorem stepLoc_cnt {k : Nat} {cold b : Bool} {st : CStep} (h : stepLoc k cold st = .cnt b) :
+    st = CStep.addCount ∧ b = !cold := by
+  cases st with
+  | swap cell => simp only [stepLoc] at h; split at h <;> cases h
+  | addHot cell => simp only [stepLoc] at h; split at h <;> cases h
+  | addCount => simp only [stepLoc] at h; cases h; exact ⟨rfl, rfl⟩
+  | unlock => simp only [stepLoc] at h; cases h
+
+/-- an event on the count of shard `b` that a collector past its spin accepts is its `addCount` (a `fetch_add`
+    site: `FaEv e "Relaxed"`), which is still in its list; `b` is its hot shard -/
+theorem colStep_cnt {k : Nat} {c : Hp.St} {cuts : Cuts} {e : Ev} {pc : Pc} {cold : Bool} {ov : Nat}
+    {todo : List CStep} {taken : Cells} {S : List Obs} {r : Res × Cuts} {b : Bool}
+    (h : colStep k c cuts e pc cold ov todo taken S = .ok r) (hl : parseLoc e.loc = .cnt b) :
+    b = !cold ∧ CStep.addCount ∈ todo ∧ FaEv e "Relaxed" := by
+  obtain ⟨r1, r2⟩ := r
+  have hpick : ∀ {l1 st l2}, splitFirst (fun st => stepLoc k cold st == parseLoc e.loc) todo = some (l1, st, l2) →
+      st = CStep.addCount ∧ b = !cold ∧ CStep.addCount ∈ todo := by
+    intro l1 st l2 hsp
+    obtain ⟨e1, e2, _⟩ := splitFirst_spec hsp
+    have : stepLoc k cold st = .cnt b := by rw [← hl]; simpa using e2
+    obtain ⟨rfl, hb⟩ := stepLoc_cnt this
+    exact ⟨rfl, hb, by rw [e1]; simp⟩
+  unfold colStep at h
+  simp only at h
+  split at h
+  · next hsp => exact absurd (hpick hsp).1 (by simp)
+  · next hsp => exact absurd (hpick hsp).1 (by simp)
+  · next hsp =>
+    rw [plainR_ok] at h
+    exact ⟨(hpick hsp).2.1, (hpick hsp).2.2, (fetchAdd_ev h.1).2⟩
+  · next hsp => exact absurd (hpick hsp).1 (by simp)
+  · split at h
+    · rw [plainR_ok] at h
+      have := (fetchAdd_ev h.1).1
+      rw [hl] at this; cases this
+    · cases h
+
 /-- **what touches a count cell** — an event the machine accepts whose location is the count of
     shard `b` belongs to one of exactly three steps: the publish of an observer on `b` (a `fetch_add` site
     with an ordering at least Release: `FaEv e "Release"`), the spin of a collector whose cold shard is `b`
-    (a compare-exchange with an ordering at least Acquire), or the `addCount` of a collector whose hot shard
-    is `b` (a `fetch_add` site: `FaEv e "Relaxed"`) -/
+    (a compare-exchange with an ordering at least Acquire, or the load a test-and-test-and-set loop does
+    before an attempt), or the `addCount` - still to be done - of a collector whose hot shard is `b` (a
+    `fetch_add` site: `FaEv e "Relaxed"`) -/
 theorem evStep1_cnt_cases {k : Nat} {c : Hp.St} {cuts : Cuts} {e : Ev} {pc : Pc} {r : Res × Cuts} {b : Bool}
     (h : evStep1 k c cuts e pc = .ok r) (hl : parseLoc e.loc = .cnt b) :
     (∃ o, pc.task = some (.obsRun o b []) ∧ FaEv e "Release") ∨
-    (∃ ov S, pc.task = some (.colSpin b ov S) ∧ e.k = "C" ∧ ordGe e.ord "Acquire" = true) ∨
-    (∃ ov todo taken S, pc.task = some (.colMove (!b) ov (.addCount :: todo) taken S) ∧ FaEv e "Relaxed") := by
+    (∃ ov S, pc.task = some (.colSpin b ov S) ∧ ((e.k = "C" ∧ ordGe e.ord "Acquire" = true) ∨ e.k = "L")) ∨
+    (∃ ov todo taken S, pc.task = some (.colMove (!b) ov todo taken S) ∧ CStep.addCount ∈ todo ∧ FaEv e "Relaxed") := by
   obtain ⟨r1, r2⟩ := r
   unfold evStep1 at h
   simp only at h
@@ -121,87 +161,51 @@ theorem evStep1_cnt_cases {k : Nat} {c : Hp.St} {cuts : Cuts} {e : Ev} {pc : Pc}
       rw [hl] at this; cases this
   · -- colSpin
     next cold ov S ht =>
-    rw [plainR_ok, guard_ok] at h
-    obtain ⟨⟨hg, _⟩, _⟩ := h
-    simp only [Bool.and_eq_true, beq_iff_eq] at hg
-    have hb : b = cold := by have := hg.1.1.1.2; rw [hl] at this; cases this; rfl
-    subst hb
-    exact .inr (.inl ⟨ov, S, ht, hg.1.1.1.1, hg.1.1.2⟩)
-  · -- swap
     split at h
+    · next hk =>
+      rw [plainR_ok, guard_ok] at h
+      obtain ⟨⟨hg, _⟩, _⟩ := h
+      simp only [Bool.and_eq_true, beq_iff_eq] at hg
+      have hb : b = cold := by have := hg.1.1; rw [hl] at this; cases this; rfl
+      subst hb
+      exact .inr (.inl ⟨ov, S, ht, .inr (by simpa using hk)⟩)
     · rw [plainR_ok, guard_ok] at h
       obtain ⟨⟨hg, _⟩, _⟩ := h
       simp only [Bool.and_eq_true, beq_iff_eq] at hg
-      rw [hl] at hg; exact absurd hg.1.1.1.2 (by simp)
-    · rw [plainR_ok, guard_ok] at h
-      obtain ⟨⟨hg, _⟩, _⟩ := h
-      simp only [Bool.and_eq_true, beq_iff_eq] at hg
-      rw [hl] at hg; exact absurd hg.1.1.1.1.2 (by simp)
-  · -- addHot
-    split at h
-    · have := (fetchAdd_ev (plainR_ok.1 h).1).1
-      rw [hl] at this; cases this
-    · rw [plainR_ok] at h
-      have := casLoop_loc h.1
-      rw [hl] at this; cases this
-  · -- addCount
+      have hb : b = cold := by have := hg.1.1.1.2; rw [hl] at this; cases this; rfl
+      subst hb
+      exact .inr (.inl ⟨ov, S, ht, .inl ⟨hg.1.1.1.1, hg.1.1.2⟩⟩)
+  · -- colMove
     next cold ov todo taken S ht =>
-    rw [plainR_ok] at h
-    obtain ⟨hloc, hfa⟩ := fetchAdd_ev h.1
-    have hb : b = !cold := by rw [hl] at hloc; cases hloc; rfl
+    obtain ⟨hb, hm, hfa⟩ := colStep_cnt h hl
     subst hb
-    exact .inr (.inr ⟨ov, todo, taken, S, by simpa using ht, hfa⟩)
-  · -- unlock
-    split at h
-    · cases h
-    · next hg =>
-      rw [guard_ok] at hg
-      obtain ⟨hg, _⟩ := hg
-      simp only [Bool.and_eq_true, beq_iff_eq] at hg
-      rw [hl] at hg; exact absurd hg.2 (by simp)
-  · cases h
+    exact .inr (.inr ⟨ov, todo, taken, S, by simpa using ht, hm, hfa⟩)
 
-/-- **what touches a count cell**, for the whole event step: as `evStep1_cnt_cases`, where the
-    collector doing its `addCount` may have silently skipped the no-op `fetch_add(0)` of the bucket
-    `addHot` step just before it (`taken cell = 0`) -/
+/-- **what touches a count cell**, for the whole event step (which is `evStep1`) -/
 theorem evStep_cnt_cases {k : Nat} {c : Hp.St} {cuts : Cuts} {e : Ev} {pc : Pc} {r : Res × Cuts} {b : Bool}
     (h : evStep k c cuts e pc = .ok r) (hl : parseLoc e.loc = .cnt b) :
     (∃ o, pc.task = some (.obsRun o b []) ∧ FaEv e "Release") ∨
-    (∃ ov S, pc.task = some (.colSpin b ov S) ∧ e.k = "C" ∧ ordGe e.ord "Acquire" = true) ∨
-    (∃ ov todo taken S, (pc.task = some (.colMove (!b) ov (.addCount :: todo) taken S) ∨
-        ∃ cell, cell < k ∧ taken cell = 0 ∧
-          pc.task = some (.colMove (!b) ov (.addHot cell :: .addCount :: todo) taken S)) ∧ FaEv e "Relaxed") := by
-  unfold evStep at h
-  have h1 := evStep1_cnt_cases h hl
-  rcases skipTask_cases k (parseLoc e.loc) pc.task with hs | ⟨cold, ov, cell, todo, taken, S, ht, hs, hc, h0, _⟩
-  · rw [skipPc_of_task_eq hs] at h1
-    rcases h1 with h1 | h1 | ⟨ov, todo, taken, S, h1, hk⟩
-    · exact .inl h1
-    · exact .inr (.inl h1)
-    · exact .inr (.inr ⟨ov, todo, taken, S, .inl h1, hk⟩)
-  · have e1 : (skipPc k e pc).task = some (.colMove cold ov todo taken S) := by simp [skipPc, hs]
-    rw [e1] at h1
-    rcases h1 with ⟨o, h1, _⟩ | ⟨ov', S', h1, _⟩ | ⟨ov', todo', taken', S', h1, hk⟩
-    · cases h1
-    · cases h1
-    · cases h1
-      exact .inr (.inr ⟨ov, todo', taken, S, .inr ⟨cell, hc, h0, ht⟩, hk⟩)
+    (∃ ov S, pc.task = some (.colSpin b ov S) ∧ ((e.k = "C" ∧ ordGe e.ord "Acquire" = true) ∨ e.k = "L")) ∨
+    (∃ ov todo taken S, pc.task = some (.colMove (!b) ov todo taken S) ∧ CStep.addCount ∈ todo ∧ FaEv e "Relaxed") :=
+  evStep1_cnt_cases h hl
 
 /-- **(a) count cells are only ever modified by RMWs** — an accepted event on a count cell is a
-    `fetch_add` ("A"), a compare-exchange ("C") or - only as the load of a `fetch_add` written as a
-    compare-exchange loop - a load ("L"), never a store or a swap: as a memory event it reads, so whenever it
-    writes it is a read-modify-write. A compare-exchange that belongs to a collector's spin carries an
-    ordering at least Acquire (the other compare-exchanges on a count cell are those of a publish, at least
-    Release, or of an `addCount`). -/
+    `fetch_add` ("A"), a compare-exchange ("C") or a load ("L": the load of a `fetch_add` written as a
+    compare-exchange loop, or the load a collector's test-and-test-and-set wait loop does before an attempt),
+    never a store or a swap: as a memory event it reads, so whenever it
+    writes it is a read-modify-write. An event that belongs to a collector's spin is that load, or a
+    compare-exchange with an ordering at least Acquire (the other compare-exchanges on a count cell are those
+    of a publish, at least Release, or of an `addCount`). -/
 theorem evStep_cnt_kind {k : Nat} {c : Hp.St} {cuts : Cuts} {e : Ev} {pc : Pc} {r : Res × Cuts} {b : Bool}
     (h : evStep k c cuts e pc = .ok r) (hl : parseLoc e.loc = .cnt b) :
     (e.k = "A" ∨ e.k = "C" ∨ e.k = "L") ∧ (ofEv e).rd = true ∧
-    (∀ cold ov S, pc.task = some (.colSpin cold ov S) → e.k = "C" ∧ ordGe e.ord "Acquire" = true) := by
-  rcases evStep_cnt_cases h hl with ⟨_, ht, hfa⟩ | ⟨_, _, ht, hk, ho⟩ | ⟨_, _, _, _, ht, hfa⟩
+    (∀ cold ov S, pc.task = some (.colSpin cold ov S) → (e.k = "C" ∧ ordGe e.ord "Acquire" = true) ∨ e.k = "L") := by
+  rcases evStep_cnt_cases h hl with ⟨_, ht, hfa⟩ | ⟨_, _, ht, hk⟩ | ⟨_, _, _, _, ht, _, hfa⟩
   · exact ⟨hfa.kind.1, hfa.kind.2.1, fun _ _ _ ht' => by rw [ht] at ht'; cases ht'⟩
-  · exact ⟨.inr (.inl hk), (ofEv_rmw_of_kind (.inr hk)).1, fun _ _ _ _ => ⟨hk, ho⟩⟩
-  · refine ⟨hfa.kind.1, hfa.kind.2.1, fun _ _ _ ht' => ?_⟩
-    rcases ht with ht | ⟨_, _, _, ht⟩ <;> (rw [ht] at ht'; cases ht')
+  · rcases hk with ⟨hk, ho⟩ | hk
+    · exact ⟨.inr (.inl hk), (ofEv_rmw_of_kind (.inr hk)).1, fun _ _ _ _ => .inl ⟨hk, ho⟩⟩
+    · exact ⟨.inr (.inr hk), by simp [ofEv, hk], fun _ _ _ _ => .inr hk⟩
+  · exact ⟨hfa.kind.1, hfa.kind.2.1, fun _ _ _ ht' => by rw [ht] at ht'; cases ht'⟩
 
 /-- **(b), publish** — an event the machine accepts from an observer that has applied all its updates
     (arm `obsRun o b []`) is on the count of its shard and reads. Either it is THE publish - a `fetch_add`,
@@ -216,7 +220,7 @@ theorem evStep_publish_release {k : Nat} {c : Hp.St} {cuts : Cuts} {e : Ev} {pc 
         (ofEv e).wr = true ∧ (ofEv e).rel = true ∧ r.1.2.2 = some "") ∨
      ((e.k = "L" ∨ (e.k = "C" ∧ e.ok = false)) ∧ (ofEv e).wr = false ∧ r.1.1 = c ∧ r.1.2.2 = none)) := by
   obtain ⟨r1, r2⟩ := r
-  rw [evStep_eq_evStep1 (by intros; simp [ht])] at h
+  rw [evStep_eq_evStep1] at h
   unfold evStep1 at h
   simp only [ht] at h
   rw [plainR_ok] at h
@@ -240,24 +244,69 @@ theorem evStep_publish_release {k : Nat} {c : Hp.St} {cuts : Cuts} {e : Ev} {pc 
     · exact (ofEv_rmw_of_kind (.inl hk)).2.mpr (.inl hk)
     · exact (ofEv_rmw_of_kind (.inr hk)).2.mpr (.inr hok)
 
-/-- **(b), spin** — the event the machine accepts from a collector that has flipped (arm `colSpin`)
-    is a compare-exchange on the count of the cold shard with an ordering at least Acquire: as a
-    memory event it reads, and if it succeeded it is an acquire RMW -/
+/-- **(b), spin** — an event the machine accepts from a collector that has flipped (arm `colSpin`) is on the
+    count of the cold shard and reads. Either it is a spin attempt - a compare-exchange with an ordering at
+    least Acquire: if it succeeded it is an acquire RMW (only a successful one ends the spin) -, or it is the
+    load a test-and-test-and-set wait loop does before an attempt: it writes nothing and changes nothing at
+    all, neither the shared state nor the call, which goes on spinning -/
 theorem evStep_spin_acquire {k : Nat} {c : Hp.St} {cuts : Cuts} {e : Ev} {pc : Pc} {r : Res × Cuts}
     {cold : Bool} {ov : Nat} {S : List Obs} (ht : pc.task = some (.colSpin cold ov S))
     (h : evStep k c cuts e pc = .ok r) :
-    e.k = "C" ∧ parseLoc e.loc = .cnt cold ∧ ordGe e.ord "Acquire" = true ∧
-    (ofEv e).rd = true ∧ (e.ok = true → (ofEv e).wr = true ∧ (ofEv e).acq = true) := by
+    parseLoc e.loc = .cnt cold ∧ (ofEv e).rd = true ∧
+    ((e.k = "C" ∧ ordGe e.ord "Acquire" = true ∧
+        (e.ok = true → (ofEv e).wr = true ∧ (ofEv e).acq = true)) ∨
+     (e.k = "L" ∧ (ofEv e).wr = false ∧ r.1.1 = c ∧ r.1.2.1 = pc ∧ r.1.2.2 = none)) := by
   obtain ⟨r1, r2⟩ := r
-  rw [evStep_eq_evStep1 (by intros; simp [ht])] at h
+  rw [evStep_eq_evStep1] at h
   unfold evStep1 at h
   simp only [ht] at h
-  rw [plainR_ok, guard_ok] at h
-  obtain ⟨⟨hg, _⟩, _⟩ := h
-  simp only [Bool.and_eq_true, beq_iff_eq] at hg
-  have hk := hg.1.1.1.1
-  exact ⟨hk, hg.1.1.1.2, hg.1.1.2, (ofEv_rmw_of_kind (.inr hk)).1,
-    fun hok => ⟨(ofEv_rmw_of_kind (.inr hk)).2.mpr (.inr hok), ofEv_acq_of_ordGe hg.1.1.2 (fun _ => hok)⟩⟩
+  split at h
+  · next hk =>
+    have hk : e.k = "L" := by simpa using hk
+    rw [plainR_ok, guard_ok] at h
+    obtain ⟨⟨hg, h⟩, _⟩ := h
+    simp only [Bool.and_eq_true, beq_iff_eq] at hg
+    cases h
+    exact ⟨hg.1.1, by simp [ofEv, hk], .inr ⟨hk, by simp [ofEv, hk], rfl, rfl, rfl⟩⟩
+  · rw [plainR_ok, guard_ok] at h
+    obtain ⟨⟨hg, _⟩, _⟩ := h
+    simp only [Bool.and_eq_true, beq_iff_eq] at hg
+    have hk := hg.1.1.1.1
+    exact ⟨hg.1.1.1.2, (ofEv_rmw_of_kind (.inr hk)).1, .inl ⟨hk, hg.1.1.2,
+      fun hok => ⟨(ofEv_rmw_of_kind (.inr hk)).2.mpr (.inr hok), ofEv_acq_of_ordGe hg.1.1.2 (fun _ => hok)⟩⟩⟩
+
+/-- **the spin ends only through an acquire RMW** — if an accepted event takes a collector out of its spin
+    (the call is no longer the `colSpin` task it was), the event is a SUCCESSFUL compare-exchange on the cold
+    count with an ordering at least Acquire: the load of the test-and-test-and-set loop only filters when
+    the exchange is attempted -/
+theorem evStep_spin_exit {k : Nat} {c : Hp.St} {cuts : Cuts} {e : Ev} {pc : Pc} {r : Res × Cuts}
+    {cold : Bool} {ov : Nat} {S : List Obs} (ht : pc.task = some (.colSpin cold ov S))
+    (h : evStep k c cuts e pc = .ok r) (hx : r.1.2.1.task ≠ pc.task) :
+    e.k = "C" ∧ e.ok = true ∧ ordGe e.ord "Acquire" = true ∧ (ofEv e).wr = true ∧ (ofEv e).acq = true ∧
+      (c.sh cold).count = ov := by
+  obtain ⟨r1, r2⟩ := r
+  rw [evStep_eq_evStep1] at h
+  unfold evStep1 at h
+  simp only [ht] at h
+  split at h
+  · rw [plainR_ok, guard_ok] at h
+    obtain ⟨⟨_, h⟩, _⟩ := h
+    cases h
+    exact absurd rfl hx
+  · rw [plainR_ok, guard_ok] at h
+    obtain ⟨⟨hg, h⟩, _⟩ := h
+    simp only [Bool.and_eq_true, beq_iff_eq] at hg
+    have hk := hg.1.1.1.1
+    split at h
+    · next hok =>
+      rw [guard_ok] at h
+      obtain ⟨hcnt, _⟩ := h
+      exact ⟨hk, hok, hg.1.1.2, (ofEv_rmw_of_kind (.inr hk)).2.mpr (.inr hok),
+        ofEv_acq_of_ordGe hg.1.1.2 (fun _ => hok), by simpa using hcnt⟩
+    · rw [guard_ok] at h
+      obtain ⟨_, h⟩ := h
+      cases h
+      exact absurd rfl hx
 
 /-! ### whole traces -/
 
